@@ -1762,6 +1762,13 @@ class FixedIncomeSecurity(SecurityBase):
     Only relevant when using :class:`FixedIncomeStrategy <bt.core.FixedIncomeStrategy>`.
     """
 
+    @cy.locals(multiplier=cy.double)
+    def __init__(self, name, multiplier=1, lazy_add=False):
+        super(FixedIncomeSecurity, self).__init__(name, multiplier, lazy_add)
+        # notional weighting: a parent fixed income strategy rebalances this
+        # security by transacting notional, not by allocating capital
+        self._fixed_income = True
+
     @cy.locals(coupon=cy.double)
     def update(self, date, data=None, inow=None):
         """
